@@ -151,7 +151,7 @@ class LabelDomain:
             return v(a[0])
         if op in ("and", "or"):
             return self._join([v(x) for x in a[0]])
-        if op in ("tuple", "list", "set", "dict", "comp", "kv"):
+        if op in ("tuple", "list", "set", "dict", "comp", "kv", "listappend", "listextend"):
             return CLEAN, frozenset()  # python containers: iteration yields values, not labels
         if op == "elem":
             it = a[0]
@@ -415,9 +415,12 @@ def _container_items(x: T, clean=frozenset(), _depth=0):
     out = []
     if _depth > 60:
         return [(x, clean)]
-    while x.op in ("upd", "loopvar", "loopout", "assume"):
+    while x.op in ("upd", "loopvar", "loopout", "assume", "listappend", "listextend"):
         if x.op == "upd":
             out.append((x.args[2], clean))
+            x = x.args[0]
+        elif x.op in ("listappend", "listextend"):
+            out.append((x.args[1], clean))
             x = x.args[0]
         elif x.op == "loopvar":
             x = x.args[2]
